@@ -37,6 +37,17 @@ func GenerateConverters(c *GenerateConfig) error {
 }
 
 func generateConvertersRaw(c *GenerateConfig) (map[string][]byte, error) {
+	if c.WorkingDir != "" && !filepath.IsAbs(c.WorkingDir) {
+		// resolve a relative working directory once, so that the package loader and the
+		// @cwd/ output paths are spelled through the same path
+		abs, err := filepath.Abs(c.WorkingDir)
+		if err != nil {
+			return nil, err
+		}
+		cfg := *c
+		cfg.WorkingDir = abs
+		c = &cfg
+	}
 	rawConverters, err := comments.ParseDocs(comments.ParseDocsConfig{
 		BuildTags:      c.BuildTags,
 		PackagePattern: c.PackagePatterns,
